@@ -95,6 +95,10 @@ def ptr_history(rnd, first_id):
         cs.pointer = cs.resolve(A.PTRTYPES[mode["ptr"]])
         cs.load(defs[defs.index("struct PS"):], compiled=compiled, align=mode["align"])
     else:
+        if rnd.random() < 0.35:
+            # the byte order is switched AFTER the definitions were loaded (and compiled): the one in force at the call counts,
+            # also for pointer widths that are not struct-packed (seed S104)
+            mode["loaded_as"] = ">" if mode["endian"] == "<" else "<"
         cs = codec.load(defs, mode, compiled)
     T = cs.PS
     base = {"type": t, "mode": mode, "consts": {"_": 0}}
